@@ -2,7 +2,7 @@
 From Coq Require Import List NArith Bool Lia.
 From JV Require Import Model.C08_History.
 Import ListNotations.
-Open Scope N_scope.
+Local Open Scope N_scope.
 
 (* ------------------------------------------------------------------ association lists *)
 Lemma nlookup_nremove_eq : forall A k (l : list (N * A)), nlookup k (nremove k l) = None.
